@@ -82,7 +82,10 @@ def handle : Handler
       let c ← csrRat? n n ip ix dt
       let l ← intList? labels
       let idx ← natList? index
-      some ("ok " ++ showList (Vote.voteUpdate c l idx))) "bad-args"
+      -- the kernel with every access checked (equal to `Vote.voteUpdate` by `vote_update_in_bounds`)
+      match Vote.Checked.voteUpdate? c l idx with
+      | some r => some ("ok " ++ showList r)
+      | none => some "oob") "bad-args"
   | "c13.vote_pinned", [n, ip, ix, dt, labels, index] => some <| Option.getD (do
       let c ← csrRat? n n ip ix dt
       let l ← intList? labels
